@@ -14,6 +14,8 @@ import (
 
 type bimapFact struct {
 	keyT, valT types.Type // nil when not uniform
+	keyInts    []int64    // all keys, when they are integer constants
+	valInts    []int64    // all values, when they are integer constants
 }
 
 // globalInit returns the initialiser expression of a package-level variable of the verified package.
@@ -43,6 +45,15 @@ func (ex *Exec) globalInit(v *types.Var) ast.Expr {
 // bimapFactsOf analyses `astikit.NewBiMap().Set(k, v).Set(k, v)...`.
 func (ex *Exec) bimapFactsOf(e ast.Expr) (bimapFact, bool) {
 	var ks, vs []types.Type
+	var kInts, vInts []int64
+	kAll, vAll := true, true
+	constInt := func(a ast.Expr) (int64, bool) {
+		tv, ok := ex.P.Info.Types[a]
+		if !ok || tv.Value == nil || tv.Value.Kind() != constant.Int {
+			return 0, false
+		}
+		return constant.Int64Val(tv.Value)
+	}
 	cur := unparen(e)
 	for {
 		call, ok := cur.(*ast.CallExpr)
@@ -58,6 +69,16 @@ func (ex *Exec) bimapFactsOf(e ast.Expr) (bimapFact, bool) {
 		}
 		ks = append(ks, ex.typeOf(call.Args[0]))
 		vs = append(vs, ex.typeOf(call.Args[1]))
+		if n, ok := constInt(call.Args[0]); ok {
+			kInts = append(kInts, n)
+		} else {
+			kAll = false
+		}
+		if n, ok := constInt(call.Args[1]); ok {
+			vInts = append(vInts, n)
+		} else {
+			vAll = false
+		}
 		cur = unparen(sel.X)
 	}
 	uniform := func(ts []types.Type) types.Type {
@@ -71,7 +92,14 @@ func (ex *Exec) bimapFactsOf(e ast.Expr) (bimapFact, bool) {
 		}
 		return types.Default(ts[0])
 	}
-	return bimapFact{uniform(ks), uniform(vs)}, true
+	f := bimapFact{keyT: uniform(ks), valT: uniform(vs)}
+	if kAll {
+		f.keyInts = kInts
+	}
+	if vAll {
+		f.valInts = vInts
+	}
+	return f, true
 }
 
 // bimapReceiverFacts: facts for X.Get / X.GetInverse when X is a package-level BiMap.
@@ -150,5 +178,45 @@ func (ex *Exec) regexFactsOf(recvExpr ast.Expr) (regexFact, bool) {
 		}
 	}
 	walk(tree, true)
+	f.minLen = regexMinLen(tree.Simplify())
 	return f, true
+}
+
+// regexMinLen: a lower bound on the length (in bytes) of any match.
+func regexMinLen(r *syntax.Regexp) int {
+	switch r.Op {
+	case syntax.OpLiteral:
+		n := 0
+		for _, c := range r.Rune {
+			_ = c
+			n++
+		}
+		return n
+	case syntax.OpCharClass, syntax.OpAnyCharNotNL, syntax.OpAnyChar:
+		return 1
+	case syntax.OpCapture:
+		return regexMinLen(r.Sub[0])
+	case syntax.OpConcat:
+		n := 0
+		for _, s := range r.Sub {
+			n += regexMinLen(s)
+		}
+		return n
+	case syntax.OpAlternate:
+		m := -1
+		for _, s := range r.Sub {
+			if k := regexMinLen(s); m < 0 || k < m {
+				m = k
+			}
+		}
+		if m < 0 {
+			return 0
+		}
+		return m
+	case syntax.OpPlus:
+		return regexMinLen(r.Sub[0])
+	case syntax.OpRepeat:
+		return r.Min * regexMinLen(r.Sub[0])
+	}
+	return 0
 }
